@@ -147,7 +147,7 @@ PROPS["C12"] = {
                     "heap_retain: refcount < u64::MAX (2^64 retains of one object cannot occur)"],
     "not_covered": [
         "WHERE the compiler calls the two inserters (that every duplication of a value is matched by one release on every path: the ~30 call sites in mirgen.rs) -- the three inserters (clone / release / close-closures) and the tuple and record arms of add_bind_pattern (every member of a destructured aggregate that holds counted references gets its clone_ops, whatever its sub-pattern and whether or not a record pattern names it) are under contract (unit mirgen_rc), every emitted instruction with the COMPONENT PATH it addresses; of the Let arm the initialisation of the local is under contract (let_local_init: a local initialised from a plain variable read of a counted type takes clone_ops of its own -- finding F16, repaired), the scope-exit release and what happens to the VALUE of the scope are not, and the latter is wrong on the current tree: known finding F15 (use after release; F16, F17 repaired); the rest of drop_closure and close_upvalues_by_idx (resolving the raw references to closures, the retain / recursive release loops over Rc<RefCell<UpValue>> cells: assumed transformer in unit closures) -- their per-cell visitors are under contract (unit upvalues)",
-        "boundedness of live closures/objects over time: a whole-history property of generated programs", "the WASM runtime's heap host functions (runtime/wasm.rs box_* / usersum_* / closure_*): box_clone / box_release call the heap functions that are under contract, usersum_release_host and the closure_* hosts are documented no-ops on the pinned tree (boxed payloads of user sums are not released on that back end), and the host heap is private to the crate, so neither a contract nor a replay observes it; the VM arms CloseHeapClosure / CallIndirect (Return0 / Return are under contract in unit closures: both frame-local lists are released, once each, on both return instructions; BoxLoad / BoxStore: no reference count changes, the stored object keeps identity and size; CloneUserSum / ReleaseUserSum in unit usersum: the registers named by the instruction, read at the type the instruction's table index names, are what the walker gets)",
+        "boundedness of live closures/objects over time: a whole-history property of generated programs", "the WASM runtime's heap host functions (runtime/wasm.rs box_* / usersum_* / closure_*): box_clone / box_release call the heap functions that are under contract, usersum_release_host and the closure_* hosts are documented no-ops on the pinned tree (boxed payloads of user sums are not released on that back end), and the host heap is private to the crate, so neither a contract nor a replay observes it; the VM arm CallIndirect (CloseHeapClosure + close_heap_upvalues are under contract in unit closures: exactly the closure the register names is closed, nothing is released; Return0 / Return are under contract in unit closures: both frame-local lists are released, once each, on both return instructions; BoxLoad / BoxStore: no reference count changes, the stored object keeps identity and size; CloneUserSum / ReleaseUserSum in unit usersum: the registers named by the instruction, read at the type the instruction's table index names, are what the walker gets)",
     ],
     "explanation": "C12: (compiler side, unit mirgen_rc) every reference-count instruction is recorded with the component of the root value it addresses (GetElement extends the path by its offset): insert_clone / insert_release / insert_close_closures emit exactly clone_ops / release_ops / close_ops(type, path) -- the right instruction on the right component, members in order; destructuring a tuple (rule N20) or a record (rules N24, N26: named fields in pattern order, then the counted fields the pattern does not name -- finding F17) gives EVERY counted member its own references, which is what the scope-exit release of the destructured copy returns; the two type-directed inserters emit, for a value of any type, exactly clone_ops(ty) resp. release_ops(ty) -- one BoxClone / BoxRelease per boxed component, one CloneUserSum / ReleaseUserSum per user-sum component, one CloneHeap / CloseHeapClosure per function-typed component, tuple and record fields in order, aliases resolved -- and lemma_release_matches_clone shows that what is released is, position by position, the counterpart of what is cloned (the function-typed counterpart is CloseHeapClosure, which is not an inverse: known finding F13); (upvalue cells, unit upvalues) the reference a closure holds on a captured closure lives in an upvalue cell; close_upvalues_by_idx's per-cell visitor closes the cell and yields EXACTLY the reference the closed cell holds (also for a cell a sibling closure closed before), drop_closure's per-cell visitor yields exactly that reference again: what is retained at close time is what is released at drop time, cell by cell (lemma_retain_release_pair); (VM instruction arms, cut from Machine::execute) CloneHeap takes one more reference on a heap closure wrapper TOGETHER with one on the closure it wraps (or one on a direct closure handle; nothing for any other word); BoxClone / BoxRelease move exactly one reference of exactly the named boxed object (retained_map / released_map; lemma_box_clone_release: a clone followed by a release restores the heap); BoxAlloc creates one fresh object with one reference and the requested number of words and touches nothing else; MakeHeapClosure / Closure record the fresh wrapper / open closure in the frame's release lists exactly once -- the lists release_heap_closures / release_open_closures walk at scope exit; (closures) at scope exit release_heap_closures releases every recorded wrapper exactly once, in order, dropping the wrapped closure exactly when it has not escaped (rel_all over rel_hc, relative to the assumed drop_closure transformer); release_open_closures drops exactly the still-open closures; allocate_heap_closure yields a fresh one-reference wrapper `[handle]` naming a fresh live open closure; get_closure's unchecked access is safe under key liveness. (usersum) the two type-directed walkers agree on WHERE the heap handles of a value are: `slots(ty, data)` is the layout function (boxed / type-alias word, tag-selected variant payload, tuple and record fields at prefix-sum offsets); clone_usersum_recursive retains exactly slots(ty,data), once each, in order; release_usersum_recursive releases every handle of slots(ty,data) (log monotone); heap-object clause: heap_retain / heap_release / heap_release_closure proved against the abstract map view (exact effect, frame, no arithmetic underflow, last release removes the object and the handle no longer resolves); balance lemma over the contracts (ghost history); the same contracts checked bit-precisely on the real slotmap by Kani with a bounded population.",
     "samples": [
